@@ -7,6 +7,7 @@ from .. import paths
 from ..core import FUNC, call_attr, calls_in, const, dotted, is_const, kwarg, norm, slice_parts, text, walk_local
 
 EXPLANATION = [
+    'C17.except-name: no name bound by `except ... as name` is read after its handler: Python deletes it when the handler ends, so the read raises UnboundLocalError exactly when the exception was caught.',
     'C17.sdp-containment: DataElementParser records the end of the sequence being parsed and refuses (before descending) an element whose end lies past it, restoring the outer bound afterwards: the offset never moves backwards, so parsing is linear in the input.',
     'C17.regex: no regular expression in hfp / at / transport has an unbounded repeat whose body starts and ends with unbounded repeats over overlapping character sets with only nullable items between (the shape that backtracks exponentially on a failing match); decided on the re._parser tree of every literal pattern.',
     'C17.tx-progress: (shared with C20.progress) every path through one iteration of DLC.process_tx spends a tx credit or is the single credit-granting iteration: the loop ends after at most tx_credits + 1 rounds whatever frame size the peer negotiated.',
@@ -988,7 +989,13 @@ def sdp_containment(ctx):
     R.check(restored, rule, 'bumble.sdp.DataElementParser._list_from_bytes | container end restored', 'the enclosing container bound is put back after the loop', 'the bound of the enclosing container is not restored after a nested sequence: siblings that follow are checked against the wrong end', p.loc(lf))
 
 
+def except_name_rule(ctx):
+    from ..generic_rules import except_name_escape
+    except_name_escape(ctx, 'C17.except-name', ['bumble.l2cap', 'bumble.smp', 'bumble.sdp', 'bumble.rfcomm', 'bumble.hfp', 'bumble.avdtp', 'bumble.avctp', 'bumble.host'])
+
+
 RULES = [
+    ('C17.except-name', except_name_rule),
     ('C17.sdp-containment', sdp_containment),
     ('C17.regex', regex_rule),
     ('C17.tx-progress', tx_progress),
